@@ -602,6 +602,9 @@ class ExprMixin:
                 if o_ is obj:
                     return Ptr(oid_, zint(k) * obj.nd)
             raise Unsupported('row of a detached multivariate series')
+        if obj.kind == 'ipair':
+            e = z3.Select(obj.arr, zint(k))
+            return (ip_fst(e), ip_snd(e))
         return z3.Select(obj.arr, zint(k))
 
     def row_ref(self, obj, k, st):
